@@ -29,6 +29,8 @@ use hashbrown::HashMap;
 #[cfg(not(feature = "std"))]
 pub use hashbrown::hash_map::Entry;
 use itertools::Itertools;
+#[cfg(cairo_verif)]
+use crate::verif_hash::hashbrown_shadow as hashbrown;
 
 // hashbrown's default hasher (foldhash) rather than std's SipHash: the map forbids iteration, so
 // determinism is unaffected, and these maps sit on hot compiler paths where hashing shows up in
